@@ -809,6 +809,17 @@ def run_gen_chunks(ctx, n, be=None):
             if mde and rng.random() < 0.04:
                 rng.choice(mde)[1] = rng.choice([0, -1, -3])
         cases.append(dict(shape=shape, itemsize=itemsize, mcs=mcs, dims=dims, pow2=rng.random() < 0.5, mde=mde))
+    # the way katdal's writers call it: (dumps, channels, corrprods), time / frequency splittable from the front or the back,
+    # power-of-two chunks with per-dimension limits, budgets of 0.1 .. 100 MB (float64 arguments such as 1e6)
+    for _ in range(max(1, n // 12)):
+        shape = [rng.choice([1, 10, 37, 100, 720]), rng.choice([1024, 4096, 8192, 32768, 1000]), rng.choice([40, 144, 800, 2016])]
+        itemsize = rng.choice([8, 4, 1])
+        mcs = [rng.choice([10 ** 5, 10 ** 6, 3 * 10 ** 6, 10 ** 7, 10 ** 8, 2 ** 20, 2 ** 24, int(np.prod(shape)) * itemsize // rng.choice([1, 10, 16])]), 1]
+        dims = rng.choice([[0, 1], [-3, -2], [0, -2], [1], [-2, 0], None, [0, 1, 17]])
+        mde = rng.choice([None, [[0, rng.choice([1, 4, 32])], [1, rng.choice([64, 256, 1000])]],
+                          [[-3, rng.choice([2, 10])], [-2, rng.choice([50, 1024])]], [[0, 2], [-2, 50], [1, 64]]])
+        cases.append(dict(shape=shape, itemsize=itemsize, mcs=mcs, dims=dims, pow2=rng.random() < 0.7, mde=mde))
+        ctx.count('gc_katdal_like')
     run_gc_batch(ctx, cases, sample=True, be=be, roundtrips=ctx.scale(45, 450))
 
 
